@@ -424,6 +424,15 @@ func ruleVersGroup(p *Prog, r *Report) {
 			ivT, _ = u.Elem().Underlying().(*types.Struct)
 		}
 	}
+	if lowerVar == "" {
+		// ... or as a struct local in memory
+		for _, al := range loopCarriedAllocs(grp, loops[0]) {
+			if types.Identical(al.Type().Underlying().(*types.Pointer).Elem(), grp.Signature.Params().At(0).Type().Underlying().(*types.Slice).Elem()) {
+				lowerVar = al.Comment
+				openFlag = "?"
+			}
+		}
+	}
 	if openFlag == "?" {
 		// the flag that becomes true when a lower bound is read
 		openFlag = ""
